@@ -934,6 +934,44 @@ def rule_m14(F):
     return r
 
 
+def rule_m15(F):
+    """Growing: after `reserve(added)` the storage has room for `len + added` elements - every value that becomes the new capacity
+    (is stored in `self.capacity`, is handed to the (re)allocation) is computed FROM the required total, i.e. depends on both the
+    current length and `added`.  Sizing the new buffer from `added` alone (doubling the old capacity otherwise) is enough for `push`
+    and lets the second `extend` of `concat` write past the allocation when the right operand is longer than the left."""
+    from .c08 import deps
+    r = RuleResult("C15.M15", "RawList::reserve: the new capacity is computed from the required total (length and added elements), not from one of them", floor=1)
+    ps = [p for p in F.paths() if p.endswith("RawList::reserve") or p.endswith("RawList::<T>::reserve")]
+    if not ps:
+        r.missing("RawList::reserve")
+        return r
+    b = F.body(ps[0])
+    defs = mir.Defs(b)
+    argc = b.mir["argc"]
+    added = "arg%d" % argc
+    n = 0
+    for bi, blk in enumerate(b.blocks):
+        for st in blk["stmts"]:
+            if st["k"] != "assign" or len(st["p"]) < 2 or st["p"][0] != 1:
+                continue
+            if not any(isinstance(x, list) and x and x[0] == "f" and len(x) > 2 and x[2] == "capacity" for x in st["p"][1:]):
+                continue
+            n += 1
+            ds = set()
+            for l in mir.rv_locals(st["rv"]):
+                ds |= deps(b, defs, l)
+            has_len = any(x.startswith("arg1") and x.split(".")[-1] == "len" or ".len" in x for x in ds if x.startswith("arg1"))
+            has_added = any(x.split(".")[0] == added for x in ds)
+            r.inst("self.capacity = .. #%d" % n, {"line": st.get("line"), "depends_on_length": has_len, "depends_on_added": has_added})
+            if not (has_len and has_added):
+                r.bad(b.path, "new capacity not computed from len + added", relfile(b.file), st.get("line") or b.line,
+                      "the value stored as the new capacity depends on %s only: after reserve(added) there need not be room for len + added elements - `[a, b, c] + [six elements]` "
+                      "writes the right operand past the allocation" % ("`added`" if has_added else "the old length / capacity" if has_len else "neither the length nor `added`"))
+    if n == 0:
+        r.missing("the assignment to self.capacity in RawList::reserve")
+    return r
+
+
 def rules(ctx):
     F = ctx["F"]
     bodies = _scope(F)
@@ -948,7 +986,7 @@ def rules(ctx):
                    "value::list::ErasedList::concat"):
         if not F.has(anchor):
             m1.missing(anchor)
-    return [m1, m2, rule_m4(F), rule_m5(F), rule_m6(F), m7, rule_m8(F), rule_m9(F), rule_m10(F), rule_m11(F), rule_m12(F), rule_m13(F), rule_m14(F)]
+    return [m1, m2, rule_m4(F), rule_m5(F), rule_m6(F), m7, rule_m8(F), rule_m9(F), rule_m10(F), rule_m11(F), rule_m12(F), rule_m13(F), rule_m14(F), rule_m15(F)]
 
 
 def canary(C):
